@@ -103,7 +103,7 @@ class PathEngine:
             self.closing_s += time.time() - t
             ctx.checks.append((name, True, None))
             return
-        model = path.solver.model()
+        model = path.last_model()
         listed = []
         if known:
             for kid, sig in known.items():
@@ -113,12 +113,12 @@ class PathEngine:
         if listed:
             excl = z3.Not(z3.Or(*[s for _, s in listed]))
             if path._check(neg, excl):
-                unlisted_model = path.solver.model()
+                unlisted_model = path.last_model()
             else:
                 unlisted_model = None
                 for kid, s in listed:
                     if path._check(neg, s):
-                        m = path.solver.model()
+                        m = path.last_model()
                         self.known_hits.append(
                             (kid, name, api.inputs_from_model(path, m)))
         self.closing_s += time.time() - t
@@ -178,7 +178,8 @@ def run_path(module, h, params, prefix, prop_id, known_ids, seed, validate):
             'prefix': list(path.decisions),
             'violations': eng.violations, 'known': eng.known_hits,
             'reached': eng.reached, 'closing': eng.closing,
-            'tags': ctx.tags, 'notes': list(set(path.notes))}
+            'tags': ctx.tags, 'notes': list(set(path.notes)),
+            'fork_sites': path.fork_sites}
     inputs = None
     if status == 'ok' and validate:
         # witness: one model of the path condition, replayed natively
@@ -305,6 +306,9 @@ def _accumulate(s, leaf):
     s['closing'] += leaf['closing']
     s['max_depth'] = max(s['max_depth'], leaf['decisions'])
     s['notes'].update(leaf.get('notes', ()))
+    for k, v in leaf.get('fork_sites', {}).items():
+        s.setdefault('fork_sites', {})
+        s['fork_sites'][k] = s['fork_sites'].get(k, 0) + v
     status = leaf['status']
     if status == 'infeasible':
         s['infeasible'] += 1
